@@ -61,12 +61,62 @@ CHECKS = {
         technique="deterministic simulation: baton-passing simulated processes over an in-memory POSIX file system, "
                   "seeded schedules + process-kill/torn-write injection, crash-point enumeration, reference-table oracle",
     ),
+    "C21": dict(
+        engine="ep",
+        level=dict(
+            category="exploration",
+            text="Seeded search: tape-generated tree sequences and EP configurations are stepped one message per real "
+                 "compiled kernel call with injected skip (invalid projection) and _rescale_factors faults; an "
+                 "independent re-statement of 'posterior == scale * sum of messages' is evaluated after every delivery, "
+                 "every rescale and every propagate_prior, a twin run without the rescale faults must end with the "
+                 "same posteriors, and the iterations of a real variational_gamma() call are observed through the "
+                 "plain-Python iterate() method. A clean batch is evidence over the seeds run, not a proof.",
+            design_ref="DESIGN.md section 4 (C21), 3.5",
+        ),
+        note="Trusted: the stepper's re-implementation of iterate()'s orchestration (checked bit-identical to the real "
+             "iterate() on fault-free runs; a mismatch is a harness error), the floating-point bound 1e-9 * running "
+             "high-water mark, the seeded workload generator.",
+        technique="deterministic simulation: message-level EP stepper over the real kernels, seeded skip/rescale fault "
+                  "injection, conservation invariant after every delivered message, twin run, observed real iterations",
+    ),
+    "C05": dict(
+        engine="ep",
+        level=dict(
+            category="exploration",
+            text="Seeded search with two separately reported halves per run: a fault-free real variational_gamma() "
+                 "call checked at return against the three clauses of the statement (the strong clause), and the same "
+                 "input stepped message by message under injected skip/rescale faults with the per-step invariant "
+                 "'(0,0) or proper gamma within [1/max_shape, max_shape]' followed by the real tail. The fault-free "
+                 "half is ordinary input/configuration exploration and is labelled as such in the evidence.",
+            design_ref="DESIGN.md section 4 (C05), 3.5",
+        ),
+        note="Trusted: the workload generator reaches the relevant inputs only by sampling; under injected skips the "
+             "'every node proper' clause is relaxed (a starved node may stay at (0,0)), nowhere else.",
+        technique="deterministic simulation: message-level EP stepper with seeded skip/rescale fault injection, "
+                  "per-step properness invariant, plus fault-free public-API runs as the baseline configuration",
+    ),
+    "C20": dict(
+        engine="ep",
+        level=dict(
+            category="exploration",
+            text="Seeded search over star-like inputs: an executable reference model (conjugate gamma, natural "
+                 "parameters (sum y, mu * sum span) over the edges delivered so far, computed from the tables and not "
+                 "from tsdate) runs next to the real stepper and is compared after every delivered message, over 1-8 "
+                 "iterations (re-delivery), any min_step, with injected _rescale_factors faults; then the public API "
+                 "is compared at return. The capped regime is compared at the end of the run; its known deviation is "
+                 "listed in known_findings.json.",
+            design_ref="DESIGN.md section 4 (C20), 3.5",
+        ),
+        note="Trusted: the reference model (a dozen lines), the star generator; the input dimension is sampled.",
+        technique="deterministic simulation: message-level EP stepper refined against an executable conjugate-gamma "
+                  "reference model after every delivery, seeded rescale-fault injection",
+    ),
 }
 
 PENDING = {
     p: "claimed in DESIGN.md section 4 (not a pure function: depends on schedules/faults/histories) but its check is "
        "not built yet at this commit; listed here only so that every property is accounted for"
-    for p in ("C09", "C21", "C05", "C20", "C33", "C34")
+    for p in ("C09", "C33", "C34")
 }
 
 
